@@ -53,7 +53,8 @@ try:
                 r"\b\d+ (failed|error)", out)
     det = {}
     for c in checks:
-        rc, out, dt = sh("cd /verif && timeout 1500 ./check %s --tier quick "
+        rc, out, dt = sh("cd /verif && VERIF_EVIDENCE_DIR=/tmp/wt/evidence "
+                         "timeout 1500 ./check %s --tier quick "
                          "--repo %s" % (c, wt), timeout=1600)
         lines = [l for l in out.splitlines()
                  if l.startswith(("VIOLATION", "violation:", "HARNESS"))]
